@@ -60,6 +60,8 @@ pub fn menu() -> Vec<Item> {
         Item { name: "singlepos_builder_ties", heavy: false, small: false, f: singlepos_builder_ties },
         Item { name: "pairpos_builder_equal_classes", heavy: false, small: false, f: pairpos_builder_equal_classes },
         Item { name: "classdef_builder_ties", heavy: false, small: false, f: classdef_builder_ties },
+        Item { name: "classdef_builder_near_overlaps", heavy: false, small: false, f: classdef_builder_near_overlaps },
+        Item { name: "pairpos_classes_near_overlaps", heavy: false, small: false, f: pairpos_classes_near_overlaps },
         Item { name: "mark_builders_equal_classes", heavy: false, small: false, f: mark_builders_equal_classes },
         Item { name: "cursive_builder", heavy: false, small: false, f: cursive_builder },
         Item { name: "gsub_builders", heavy: false, small: false, f: gsub_builders },
@@ -480,6 +482,90 @@ fn classdef_builder_ties() -> Vec<u8> {
         }
     }
     out
+}
+
+fn grange(a: u16, b: u16) -> IntSet<GlyphId16> {
+    (a..=b).map(g).collect()
+}
+
+/// 'Nearly overlapping' class sets for the acceptance test of ClassDefBuilder (`can_add` /
+/// `checked_add`): after a class with scattered glyphs, offer (i) a contiguous run that strictly
+/// contains one of its glyphs, (ii) runs that end / start exactly at one, (iii) the identical class,
+/// (iv) a disjoint class, (v) a run containing a whole earlier run. A correct builder rejects
+/// (i), (ii), (v), so the classes stay disjoint and the HashMap-driven ClassDef is order free; any
+/// acceptance slip makes a glyph a member of two classes and the hash order observable.
+/// Output: accept/reject bits + ClassDef bytes + sorted mapping, for both class-0 modes.
+fn classdef_builder_near_overlaps() -> Vec<u8> {
+    let mut out = vec![];
+    for use0 in [false, true] {
+        let mut b = if use0 { ClassDefBuilder::new_using_class_0() } else { ClassDefBuilder::new() };
+        let offers: Vec<IntSet<GlyphId16>> = vec![
+            gset(&[15, 30]),
+            grange(10, 20),       // strictly contains 15
+            gset(&[15, 30]),      // identical
+            grange(25, 30),       // ends exactly at 30
+            grange(30, 33),       // starts exactly at 30
+            grange(40, 45),       // disjoint
+            grange(38, 47),       // contains the whole run 40..=45
+            grange(41, 44),       // strictly inside 40..=45
+            gset(&[60, 70, 80]),
+            grange(55, 65),       // strictly contains 60
+            grange(66, 75),       // strictly contains 70
+            grange(76, 85),       // strictly contains 80
+            grange(100, 101),
+            grange(90, 110),      // strictly contains the run 100..=101
+            gset(&[200]),         // disjoint singleton
+        ];
+        for cls in offers {
+            out.push(b.checked_add(cls) as u8);
+        }
+        let (cd, mapping) = b.build_with_mapping();
+        out.extend(dump_table(&cd).unwrap());
+        let mut m: Vec<(Vec<u16>, u16)> = mapping.into_iter().map(|(k, v)| (k.iter().map(|x| x.to_u16()).collect(), v)).collect();
+        m.sort();
+        for (k, v) in m {
+            out.extend(k.iter().flat_map(|x| x.to_be_bytes()));
+            out.extend(v.to_be_bytes());
+        }
+    }
+    out
+}
+
+/// The same near-overlaps through the public kerning API: PairPosBuilder::insert_classes decides with
+/// ClassDefBuilder::can_add (for the first and for the second class) whether a rule joins the current
+/// class-pair subtable or starts a new one.
+fn pairpos_classes_near_overlaps() -> Vec<u8> {
+    let mut b = PairPosBuilder::default();
+    let v = |x: i16| ValueRecordBuilder::new().with_x_advance(x);
+    let rules: Vec<(IntSet<GlyphId16>, IntSet<GlyphId16>, i16)> = vec![
+        // second classes: scattered, then a run strictly containing 15
+        (gset(&[1, 2]), gset(&[15, 30]), -10),
+        (gset(&[3, 4]), grange(10, 20), -20),
+        // identical classes again, disjoint classes
+        (gset(&[1, 2]), gset(&[15, 30]), -10),
+        (gset(&[5, 6]), grange(40, 45), -30),
+        // first classes: scattered, then runs strictly containing / ending at / starting at a member
+        (gset(&[50, 60]), gset(&[100]), 11),
+        (grange(45, 55), gset(&[101]), 12),
+        (grange(56, 60), gset(&[102]), 13),
+        (grange(60, 62), gset(&[103]), 14),
+        // three more strict containments on the second class, each in its own glyph range
+        (gset(&[7]), gset(&[300, 310, 320]), 21),
+        (gset(&[8]), grange(295, 305), 22),
+        (gset(&[9]), grange(306, 315), 23),
+        (gset(&[11]), grange(316, 325), 24),
+        // a run containing a whole earlier run, and one strictly inside an earlier run
+        (gset(&[12]), grange(400, 401), 31),
+        (gset(&[13]), grange(390, 410), 32),
+        (gset(&[14]), grange(420, 430), 33),
+        (gset(&[16]), grange(424, 426), 34),
+    ];
+    for (c1, c2, adv) in rules {
+        b.insert_classes(c1, v(adv), c2, ValueRecordBuilder::new());
+    }
+    let mut vs = VariationStoreBuilder::new(2);
+    let subtables = b.build(&mut vs);
+    gpos_of(vec![PositionLookup::Pair(Lookup::new(LookupFlag::empty(), subtables))])
 }
 
 const MARK_CLASSES: [&str; 4] = ["top", "bottom", "ring", "cedilla"];
